@@ -1,5 +1,6 @@
 import GateryModel.C07.Model
 import GateryModel.C07.Spec
+import GateryModel.C07.Pipeline
 /-!
 Driver for C07. Per case: memory configuration, ports in declaration order, power-on contents, and per clock cycle the
 inputs of every memory port and the asynchronous read data sampled on the netlist as built, the data pins (behind `L`
@@ -31,7 +32,11 @@ structure PortCfg where
   rmw : Bool := false
   share : Bool := false
   outXor : String := "-"
-  rdEn : Bool := false          -- the read latency registers have an enable pin
+  rdEn : Bool := false          -- some read latency register sits under an enable scope
+  stEn : List String := []      -- per stage: enable pin number or "-"
+  enFrom : String := "-"        -- read port: uses the enable pins of that earlier read port
+  enOf : String := "-"          -- write port: declared in the ENIF scope of enable pin 0 of that read port
+  idx : Nat := 0
   rst : List String := []       -- reset values of the read latency registers (first register first); [] = none
 
 structure Case where
@@ -48,6 +53,7 @@ structure Case where
   resetCycles : Nat := 0
   memreset : Bool := false
   asyncReset : Bool := false
+  rmwEn : Bool := false
   noReset : Bool := false
   chains : Array (List W) := #[]   -- mode 9: contents of the read latency registers per read port (first register first)
   rcPred : Nat := 0
@@ -92,7 +98,8 @@ def bump (h : List (String × Nat)) (k : String) : List (String × Nat) :=
 /-- print at most `maxPerKey` messages per key (the runner extracts the case of every printed PROPFAIL from the stream file) -/
 def say (s : Stats) (key msg : String) : IO Stats := do
   let n := ((s.printed.find? (·.1 == key)).map (·.2)).getD 0
-  if n < 3 then IO.println msg
+  let lim := ((← IO.getEnv "C07_SAY_MAX").bind String.toNat?).getD 3
+  if n < lim then IO.println msg
   return { s with printed := bump s.printed key }
 
 def kvOf (toks : List String) (key : String) : String :=
@@ -147,6 +154,25 @@ def xorW (a k : String) : String :=
   if k == "-" || k == "" then a else
   String.ofList (List.zipWith (fun x y => if x == 'x' then 'x' else if x == y then '0' else '1') a.toList k.toList)
 
+/-- the enable condition a port of the memory runs under, from the design: "-" = none, else owner port and stage pins -/
+def PortCfg.domain (p : PortCfg) : String :=
+  if p.isWrite then (if p.enOf == "-" then "-" else s!"{p.enOf}:0")
+  else if !p.rdEn || p.stEn.all (· == "-") then "-"
+  else
+    let owner := if p.enFrom == "-" then toString p.idx else p.enFrom
+    -- one enable for all stages is the condition `owner:pin`; per-stage scopes are a condition of their own
+    if p.stEn.all (· == p.stEn.headD "-") then s!"{owner}:{p.stEn.headD "-"}" else s!"{owner}:{",".intercalate p.stEn}"
+
+/-- design facts that select the two known causes of wrong hazard logic:
+`mixed` = read-modify-write hazard logic is generated and the read ports of the memory and the dependent write ports do not all run
+under one enable condition; `ring` = hazard logic in ring buffer mode (read latency > 2) with an enable on the read registers -/
+def hazardFacts (lat : Nat) (ports : List PortCfg) : Bool × Bool :=
+  let hazard := ports.any (·.rmw)
+  let doms := (ports.filter fun p => !p.isWrite || p.rmw).map PortCfg.domain
+  let mixed := hazard && !(doms.all (· == doms.headD "-"))
+  let ring := hazard && lat > 2 && doms.any (· != "-")
+  (mixed, ring)
+
 def cmpPins (expect : List W) (got : List String) : Bool :=
   expect.length == got.length && (List.zipWith refinesW expect got).all id
 
@@ -159,7 +185,7 @@ partial def loop (h : IO.FS.Stream) (c : Case) (s : Stats) : IO Stats := do
     let c : Case := { id := id, depth := (kvOf rest "depth").toNat!, width := (kvOf rest "width").toNat!, aw := (kvOf rest "aw").toNat!,
                       lat := (kvOf rest "L").toNat!, type := kvOf rest "type", init := kvOf rest "init", dev := kvOf rest "dev",
                       mode := (kvOf rest "mode").toNat!, idle := (kvOf rest "idle").toNat!, resetCycles := (kvOf rest "resetcycles").toNat!, memreset := kvOf rest "memreset" == "1",
-                      asyncReset := kvOf rest "async" == "1", wrInReset := kvOf rest "wrinreset" == "1", noReset := kvOf rest "noreset" == "1", rcPred := (kvOf rest "rcpred").toNat! }
+                      asyncReset := kvOf rest "async" == "1", wrInReset := kvOf rest "wrinreset" == "1", noReset := kvOf rest "noreset" == "1", rmwEn := kvOf rest "rmwen" == "1", rcPred := (kvOf rest "rcpred").toNat! }
     let s := { s with cases := s.cases + 1, hist := bump (bump (bump (bump s.hist s!"type:{c.type}") s!"L:{c.lat}") s!"init:{c.init}") s!"dev:{c.dev}" }
     let s := { s with hist := bump (bump s.hist (if c.depth == 2 ^ c.aw then "depth:pow2" else "depth:nonpow2")) s!"mode:{c.mode}" }
     let s := if c.mode == 8 then { s with hist := bump (bump (bump s.hist (if c.asyncReset then "reset:async" else "reset:sync")) s!"reset-extra:{kvOf rest "extra"}")
@@ -169,8 +195,12 @@ partial def loop (h : IO.FS.Stream) (c : Case) (s : Stats) : IO Stats := do
   | "port" :: _ :: kind :: rest =>
     let isW := kind == "W"
     let p : PortCfg := { isWrite := isW, cond := kvOf rest "cond" == "1", rmw := kvOf rest "rmw" != "-" && isW, share := kvOf rest "share" != "-" }
-    let p := { p with outXor := if isW then "-" else kvOf rest "xor" }
+    let p := { p with outXor := if isW then "-" else kvOf rest "xor", idx := c.ports.size,
+                      enFrom := if isW || kvOf rest "enfrom" == "" then "-" else kvOf rest "enfrom",
+                      enOf := if !isW || kvOf rest "enof" == "" then "-" else kvOf rest "enof" }
     let rstS := kvOf rest "rst"
+    let stS := kvOf rest "sten"
+    let p := { p with stEn := if isW || stS == "-" || stS == "" then [] else stS.splitOn "," }
     let p := { p with rdEn := kvOf rest "en" == "1" && !isW, rst := if isW || rstS == "-" || rstS == "" then [] else rstS.splitOn "," }
     loop h { c with ports := c.ports.push p } s
   | "mem" :: ws =>
@@ -182,9 +212,9 @@ partial def loop (h : IO.FS.Stream) (c : Case) (s : Stats) : IO Stats := do
     let s := if c.ports.toList.any (fun p => p.isWrite && !p.cond) then { s with hist := bump s.hist "unconditional-write" } else s
     let undefW := (wordOps c.width).undef
     let chains := (c.ports.toList.filter (!·.isWrite)).map fun p => if p.rst.isEmpty then List.replicate c.lat undefW else p.rst
-    let s := if c.mode == 9 then
+    let s := if (c.mode == 9 || c.mode == 10) then
         (c.ports.toList.filter (!·.isWrite)).foldl (fun s p =>
-          { s with hist := bump s.hist s!"readreg:{if p.rst.isEmpty then "noreset-value" else "reset-value"}+{if p.rdEn then "enable" else "no-enable"}" }) s
+          { s with hist := bump s.hist s!"readreg:{if p.rst.isEmpty then "noreset-value" else "reset-value"}+{if !p.rdEn then "no-enable" else if p.stEn.all (· == p.stEn.headD "-") then "uniform-enable" else "per-stage-enables"}+{if c.ports.toList.any (·.isWrite) then "ram" else "rom"}" }) s
       else s
     loop h { c with mem := ws, spec := ⟨ws⟩, specPost := ⟨ws⟩, chains := chains.toArray } s
   | "pre" :: r :: reason =>
@@ -216,7 +246,32 @@ partial def loop (h : IO.FS.Stream) (c : Case) (s : Stats) : IO Stats := do
     if c.preOk && r == "ok" && expectReject && c.dev == "0" then
       s ← say s "guard" s!"DIFF case={c.id} what=guard model_rejects=true impl_rejects=false type={c.type} L={c.lat}"
       s := { s with diffs := s.diffs + 1 }
-    if c.preOk && r != "ok" && !expectReject then
+    -- read-latency registers of one read port under different enable scopes: when they have to be retimed (a bypass mux or other
+    -- logic sits between port and registers) gatery refuses the design with an explicit design check (RegisterRetiming.cpp:1416-1431,
+    -- "register with an enable signal that is incompatible with the inferred register enable"; MemoryDetector.cpp:613-616 keeps one
+    -- enable condition per read port): a documented design-time rejection, counted and not judged
+    let nonUniform := c.ports.toList.any fun p => !p.isWrite && p.rdEn && !(p.stEn.all (· == p.stEn.headD "-"))
+    -- guard model: such a port needs its registers retimed iff a write port was declared before it (read-before-write bypass mux)
+    -- or there is logic between port and registers
+    let needsRetime := (c.ports.toList.foldl (fun (acc : Bool × Bool) p =>
+        if p.isWrite then (true, acc.2)
+        else (acc.1, acc.2 || (p.rdEn && !(p.stEn.all (· == p.stEn.headD "-")) && (acc.1 || p.outXor != "-")))) (false, false)).2
+    let unjudgedStage := r != "ok" && needsRetime && why.startsWith "A_retiming_error_occured"
+    -- read-modify-write under an enable: other read ports (other enables / none) may make the enable conditions of the retiming
+    -- incompatible - the same explicit design check; accepted designs are judged
+    let unjudgedRmw := r != "ok" && c.rmwEn && why.startsWith "A_retiming_error_occured"
+    if unjudgedRmw && !unjudgedStage then s := { s with hist := bump s.hist "rejected-not-judged:rmw-under-enable-mixed-conditions" }
+    if c.preOk && r == "ok" && c.rmwEn then s := { s with hist := bump s.hist "accepted:rmw-under-enable" }
+    -- (candidate repair for the mixed-enable-domain defect: such designs are refused with an explicit design check)
+    let unjudgedDom := r != "ok" && c.rmwEn && why.startsWith "Can_not_build_read_modify_write_hazard_logic"
+    if unjudgedDom then s := { s with hist := bump s.hist "rejected-not-judged:hazard-logic-enable-domains" }
+    let unjudged := unjudgedStage || unjudgedRmw || unjudgedDom
+    if c.preOk && r == "ok" && needsRetime && c.dev == "0" then
+      s ← say s "guard-en" s!"DIFF case={c.id} what=guard-per-stage-enables model_rejects=true impl_rejects=false L={c.lat}"
+      s := { s with diffs := s.diffs + 1 }
+    if unjudgedStage then s := { s with hist := bump s.hist "rejected-not-judged:per-stage-enables-need-retiming" }
+    if c.preOk && r == "ok" && nonUniform then s := { s with hist := bump s.hist "accepted:per-stage-enables" }
+    if c.preOk && r != "ok" && !expectReject && !unjudged then
       -- a configuration inside the statement's domain that post-processing refuses: the property fails for it
       s ← say s s!"post-rejected:{why}:{c.dev}" s!"PROPFAIL case={c.id} what=post-rejected reason={why} L={c.lat} type={c.type} dev={c.dev} reads={(c.ports.toList.filter (!·.isWrite)).length} writes={(c.ports.toList.filter (·.isWrite)).length}"
       c := { c with failed := true }
@@ -228,6 +283,11 @@ partial def loop (h : IO.FS.Stream) (c : Case) (s : Stats) : IO Stats := do
       s ← say s "rcpred" s!"DIFF case={c.id} what=reset-cycles model={c.rcPred} impl={c.resetCycles} depth={c.depth} async={c.asyncReset}"
       s := { s with diffs := s.diffs + 1 }
     if c.postOk && c.lat ≥ 1 && c.ports.toList.any (·.rmw) then s := { s with hazardCases := s.hazardCases + 1 }
+    if c.postOk then
+      let (mixed, ring) := hazardFacts c.lat c.ports.toList
+      if mixed then s := { s with hist := bump s.hist "hazard-design:mixed-enable-domains" }
+      if ring then s := { s with hist := bump s.hist "hazard-design:ring-buffer-under-enable" }
+      if !mixed && !ring && c.rmwEn then s := { s with hist := bump s.hist "hazard-design:one-enable-domain" }
     loop h c s
   | "c" :: tStr :: ";" :: rest =>
     let t := tStr.toNat!
@@ -277,7 +337,7 @@ partial def loop (h : IO.FS.Stream) (c : Case) (s : Stats) : IO Stats := do
                     | .rd en a => !(en.defd && a.full cfg.aw) | .wr en we a _ => !(en.defd && we.defd && a.full cfg.aw)).length,
                         outOfRange := s.outOfRange + (ports.filter fun p => match p with
                     | .rd _ a => a.full cfg.aw && a.val ≥ cfg.depth | .wr _ _ a _ => a.full cfg.aw && a.val ≥ cfg.depth).length }
-        if c.specOk && c.mode == 9 then
+        if c.specOk && (c.mode == 9 || c.mode == 10) then
           -- read-register family: enabled shift registers with reset values behind the array read
           let rports := c.ports.toList.filter (!·.isWrite)
           let expect := c.chains.toList.map fun ch => ch.getLastD ops.undef
@@ -294,7 +354,8 @@ partial def loop (h : IO.FS.Stream) (c : Case) (s : Stats) : IO Stats := do
               let hazard := c.ports.toList.any (·.rmw)
               let pen := (bad.map (·.rdEn)).getD false
               let prst := (bad.map (!·.rst.isEmpty)).getD false
-              s ← say s s!"post9:{c.dev}:{hazard}:{pen}:{prst}" s!"PROPFAIL case={c.id} cycle={t} what=post-readreg hazard={hazard} port_en={pen} port_rst={prst} L={c.lat} type={c.type} dev={c.dev} async={c.asyncReset} noreset={c.noReset} model={expect} pins={postPins} pre_pins={prePins} enables={ren}"
+              let (mixed, ring) := hazardFacts c.lat c.ports.toList
+              s ← say s s!"post9:{c.dev}:{hazard}:{pen}:{prst}:{mixed}:{ring}" s!"PROPFAIL case={c.id} cycle={t} what=post-readreg hazard={hazard} domains={if mixed then "mixed" else "one"} ring={ring} port_en={pen} port_rst={prst} L={c.lat} type={c.type} dev={c.dev} async={c.asyncReset} noreset={c.noReset} model={expect} pins={postPins} pre_pins={prePins} enables={ren}"
               c := { c with failed := true }
               s := { s with propfails := s.propfails + 1 }
           -- clock edge
@@ -302,10 +363,12 @@ partial def loop (h : IO.FS.Stream) (c : Case) (s : Stats) : IO Stats := do
           let newReads := c.reads[t]!
           let chains := (List.zip (List.zip c.chains.toList rports) (List.zip newReads (ren ++ List.replicate rports.length "-"))).map fun ((ch, p), (rd, e)) =>
             if inReset && !p.rst.isEmpty then p.rst
-            else if e == "-" || e == "1" then (xorW rd p.outXor :: ch).take c.lat
-            else ch
+            else
+              -- stage enables of this cycle ("-" = no enable scope: always loads); the proved pipeline model does the edge
+              let es := if e == "-" then [] else (e.splitOn ",").map (· != "0")
+              pipeStep (xorW rd p.outXor) ch es
           c := { c with chains := chains.toArray }
-        if c.specOk && t ≥ c.lat && c.mode != 9 then
+        if c.specOk && t ≥ c.lat && (c.mode != 9 && c.mode != 10) then
           let xors := (c.ports.toList.filter (!·.isWrite)).map (·.outXor)
           let expect := List.zipWith xorW (c.reads[t - c.lat]!) xors
           s := { s with preCmp := s.preCmp + expect.length, ops := s.ops + expect.length }
